@@ -10,6 +10,7 @@ import (
 	"strings"
 
 	"github.com/hyperledger/firefly-signer/pkg/abi"
+	"github.com/hyperledger/firefly-signer/pkg/ethtypes"
 )
 
 func genParamList(r *Rng, o tyOpts, depth int) []*absTy {
@@ -565,8 +566,131 @@ func init() {
 				dd := &absTy{Kind: "darr", Child: &absTy{Kind: "darr", Child: &absTy{Kind: "string"}}, Name: "a"}
 				c.Add(map[string]any{"op": "abi.decode", "params": paramsJSON([]*absTy{dd}), "hex": hx(b), "offset": 0, "cfg": allCfgs[0], "isolate": true}, "hugecount")
 			}
+			// the other entry points on arbitrary bytes: call data, event topics / data, revert data — valid encodings,
+			// every short length (nil, empty, 1…5 bytes), truncations, mutated words, random bytes
+			ne := 120
+			if c.Thorough() {
+				ne = 4000
+			}
+			for i := 0; i < ne; i++ {
+				ts := genEntryParams(r, 1+r.Intn(2))
+				kind := Pick(r, []string{"calldata", "calldata", "event", "error", "error"})
+				typ := map[string]string{"calldata": "function", "event": "event", "error": "error"}[kind]
+				ej := entryJSON(typ, Pick(r, []string{"f", "Transfer", "Err", "Error"}), kind == "event" && r.Intn(4) == 0, ts)
+				e := entryFromJSON(ej)
+				var valid []byte
+				if cvIn, perr := e.Inputs.ParseExternalData(renderVal(r, topTuple(ts), genVal(r, topTuple(ts), 40), "json", false)); perr == nil {
+					if b, eerr := e.EncodeCallData(cvIn); eerr == nil {
+						valid = b
+					}
+				}
+				var datas [][]byte
+				datas = append(datas, nil, []byte{}, valid)
+				for l := 1; l <= 5; l++ {
+					if l <= len(valid) {
+						datas = append(datas, append([]byte{}, valid[:l]...))
+					}
+					datas = append(datas, r.Bytes(l))
+				}
+				if len(valid) > 4 {
+					datas = append(datas, valid[:4+r.Intn(len(valid)-3)], append(append([]byte{}, valid...), r.Bytes(1+r.Intn(40))...))
+					m := append([]byte{}, valid...)
+					w := (len(m) - 4) / 32
+					if w > 0 {
+						k := 4 + 32*r.Intn(w)
+						Pick(r, []*big.Int{big.NewInt(0), big.NewInt(31), big.NewInt(int64(len(m))), pow2(31), pow2(32), pow2(64), new(big.Int).Sub(pow2(256), big.NewInt(1))}).FillBytes(m[k : k+32])
+						datas = append(datas, m)
+					}
+				}
+				datas = append(datas, r.Bytes(r.LogLen(300)))
+				for _, d := range datas {
+					req := map[string]any{"op": "abi.rawentry", "kind": kind, "data": hx(d), "nilData": d == nil}
+					switch kind {
+					case "calldata":
+						req["entry"] = ej
+					case "event":
+						req["entry"] = ej
+						if kind == "event" && len(d) >= 4 {
+							d = d[4:] // event data carries no selector
+							req["data"] = hx(d)
+						}
+						var topics []any
+						nt := Pick(r, []int{0, 0, 1, 2, 3, 4, 5})
+						if r.Bool() {
+							// the right number of topics, the signature topic first
+							nt = 0
+							if !e.Anonymous {
+								topics = append(topics, hx(e.SignatureHashBytes()))
+							}
+							for _, in := range e.Inputs {
+								if in.Indexed {
+									topics = append(topics, hx(r.Bytes(32)))
+								}
+							}
+						}
+						for k := 0; k < nt; k++ {
+							topics = append(topics, hx(r.Bytes(Pick(r, []int{32, 32, 32, 0, 1, 31, 33}))))
+						}
+						if topics == nil {
+							topics = []any{}
+						}
+						req["topics"] = topics
+					case "error":
+						ab := []any{ej}
+						for q := r.Intn(3); q > 0; q-- {
+							ab = append(ab, entryJSON(Pick(r, []string{"error", "function"}), Pick(r, []string{"Other", "Err"}), false, genEntryParams(r, 1)))
+						}
+						req["abi"] = ab
+						if r.Intn(3) == 0 && len(d) >= 4 {
+							// the built-in Error(string) selector in front of whatever follows
+							req["data"] = "08c379a0" + hx(d[4:])
+						}
+					}
+					c.Add(req, "rawentry."+kind)
+				}
+			}
 		},
 		Impl: func(req map[string]any) any {
+			if str(req, "op") == "abi.rawentry" {
+				data := unhx(str(req, "data"))
+				if req["nilData"] == true {
+					data = nil
+				}
+				switch str(req, "kind") {
+				case "calldata":
+					cv, err := entryFromJSON(req["entry"]).DecodeCallData(data)
+					if err != nil {
+						return map[string]any{"dec": "err"}
+					}
+					return map[string]any{"dec": ok(cvToJSON(cv))}
+				case "event":
+					var topics []ethtypes.HexBytes0xPrefix
+					for _, t := range req["topics"].([]any) {
+						topics = append(topics, unhx(t.(string)))
+					}
+					cv, err := entryFromJSON(req["entry"]).DecodeEventData(topics, data)
+					if err != nil {
+						return map[string]any{"dec": "err"}
+					}
+					return map[string]any{"dec": ok(cvToJSON(cv))}
+				default:
+					var a abi.ABI
+					b, _ := json.Marshal(req["abi"])
+					_ = json.Unmarshal(b, &a)
+					_, _ = a.ErrorString(data)
+					e, cv, found := a.ParseError(data)
+					if !found {
+						return map[string]any{"dec": nil}
+					}
+					idx := 0
+					for i, x := range a {
+						if x == e {
+							idx = i + 1
+						}
+					}
+					return map[string]any{"dec": map[string]any{"index": idx, "cv": cvToJSON(cv)}}
+				}
+			}
 			pa := paramArray(req["params"])
 			block := unhx(str(req, "hex"))
 			off := 0
@@ -621,6 +745,12 @@ func init() {
 				return []Finding{{Kind: "violation", Region: "abi.decode.memory", Detail: "decode of a small input exhausted memory / killed the (isolated) process"}}
 			}
 			m := impl.(map[string]any)
+			if str(req, "op") == "abi.rawentry" {
+				if !same(normJ(m["dec"]), normJ(orc["model"])) {
+					fs = append(fs, Finding{Kind: "mismatch", Region: "abi.rawentry." + str(req, "kind"), Detail: "decoding arbitrary bytes through the " + str(req, "kind") + " entry point differs from model: impl=" + trunc(canon(m["dec"]), 200) + " model=" + trunc(canon(orc["model"]), 200)})
+				}
+				return fs
+			}
 			if orc["skipped"] == true {
 				if _, isok := m["dec"].(map[string]any); isok {
 					fs = append(fs, Finding{Kind: "violation", Region: "abi.decode.memory", Detail: "a count word beyond 2^17 over elements with an empty encoding was honoured: work and memory driven by one word of the input"})
